@@ -28,6 +28,7 @@ res = {"ran": []}
 try:
     demo_files = []
     def put_demo():
+        demo_files.clear()
         if a.demo_dest:
             for f in glob.glob(os.path.join(demo, "*")):
                 if os.path.isfile(f) and not f.endswith("README.txt"):
